@@ -16,6 +16,33 @@ fn hue_deg(b: f64, ap: f64) -> f64 {
     }
 }
 
+/// CIE L*a*b* (D65, white 0.95047 / 1 / 1.08883) of float sRGB channels in [0,1], from the published definitions
+/// (IEC 61966-2-1 transfer curve with the cut at 0.04045 and its matrix; CIE 1976 with the (6/29)^3 cut): written
+/// here so that an oracle that measures distances does not take its coordinates from the code under test.
+pub fn lab_of_srgb(r: f64, g: f64, b: f64) -> [f64; 3] {
+    fn lin(c: f64) -> f64 {
+        if c <= 0.04045 {
+            c / 12.92
+        } else {
+            ((c + 0.055) / 1.055).powf(2.4)
+        }
+    }
+    fn f(t: f64) -> f64 {
+        let d: f64 = 6.0 / 29.0;
+        if t > d * d * d {
+            t.cbrt()
+        } else {
+            t / (3.0 * d * d) + 4.0 / 29.0
+        }
+    }
+    let (r, g, b) = (lin(r), lin(g), lin(b));
+    let x = 0.4124 * r + 0.3576 * g + 0.1805 * b;
+    let y = 0.2126 * r + 0.7152 * g + 0.0722 * b;
+    let z = 0.0193 * r + 0.1192 * g + 0.9505 * b;
+    let (fx, fy, fz) = (f(x / 0.95047), f(y), f(z / 1.08883));
+    [116.0 * fy - 16.0, 500.0 * (fx - fy), 200.0 * (fy - fz)]
+}
+
 /// |h1' - h2'| in degrees (0 when either chroma' vanishes): the quantity whose value 180 is the standard's
 /// discontinuity.
 pub fn hue_gap(lab1: [f64; 3], lab2: [f64; 3]) -> f64 {
